@@ -79,6 +79,15 @@ def cases():
     out.append((("Equals", m_, av2), [(("Plus", x, y), z), (x, y)]))
     out.append((("Equals", m_, av1), [(("Plus", x, y), z)]))
     out.append((("exists", qx, ("Equals", m_, av2)), [(y, z), (x, z)]))
+    # a key that is an array value mentioning a variable the quantifier binds: left alone under the binder
+    B2 = ("BV", 2)
+    xb, ab = S("xb", B2), S("ab", ("ARRAY", B2, B2))
+    kx = ("Array", ("type", B2), xb)
+    kc = ("Array", ("type", B2), ("lit", 0, B2), ("dict", (("lit", 1, B2), xb)))
+    qxb = [("xb", B2)]
+    out.append((("forall", qxb, ("Equals", ("Select", kx, ("lit", 0, B2)), xb)), [(kx, ab)]))
+    out.append((("And", ("Equals", ("Select", kx, ("lit", 1, B2)), xb), ("exists", qxb, ("Equals", ("Select", kx, ("lit", 0, B2)), ("lit", 2, B2)))), [(kx, ab)]))
+    out.append((("forall", qxb, ("Equals", ("Select", kc, ("lit", 1, B2)), xb)), [(kc, ab), (xb, ("lit", 3, B2))]))
     return [(Shape(f), [(Shape(k), Shape(v)) for k, v in m]) for f, m in out]
 
 
@@ -166,7 +175,7 @@ def _interp_job(job):
                 return proc.ProcResult(shape, "invalid", "applying the interpretations to the rewritten actuals, formals "
                                        "bound in order, gives %s (%s)" % (sc.node_str(w, exp), v.detail), rs)
         return proc.ProcResult(shape, "valid", "= body[formals := rewritten actuals]", rs)
-    res = proc.run_proc(shape, call, post=post, services=True, world_cls=proc.TypedWorld)
+    res = proc.run_proc(shape, call, post=post, services="full", world_cls=proc.TypedWorld)
     istr = "{%s}" % ", ".join("%s(%s) := %s" % (k[0], ", ".join(proc.shape_str(x) for x in v[0]), proc.shape_str(v[1]))
                               for k, v in ip.items())
     return [(cls.split(".")[-1], "%r with %s" % (shape, istr), r.kind, str(r.detail), r.result) for r in res]
@@ -219,7 +228,7 @@ def _job(job):
                                            "original under the updated interpretation %r" % (sc._show(asg), lhs, rhs), rs)
                 n_ok += 1
         return proc.ProcResult(shape, "valid", "= reference %s" % ("MGS" if mode == "mg" else "MSS"), rs)
-    res = proc.run_proc(shape, call, post=post, services=True, world_cls=proc.TypedWorld)
+    res = proc.run_proc(shape, call, post=post, services="full", world_cls=proc.TypedWorld)
     mstr = "{%s}" % ", ".join("%r: %r" % (k, v) for k, v in mp)
     return [("FNode.substitute" if via_method else cls.split(".")[-1], "%r with %s" % (shape, mstr), r.kind, str(r.detail), r.result) for r in res]
 
